@@ -7,6 +7,7 @@ import EinoV.Model.Engine
 import EinoV.Model.GraphBuild
 import EinoV.Proofs.C01
 import EinoV.Proofs.C01Refine
+import EinoV.Proofs.C01Chain
 import EinoV.Spec.Superstep
 import EinoV.Gen.FactsC01
 import EinoV.Expected.C01
